@@ -5,8 +5,9 @@ package main
 // Kinds:
 //
 //	pypi_record  (root universe)  Go only. Resolves on the real LocalClient, (a) raw, several
-//	             times on fresh clients, (b) through a RECORDING client that copies every
-//	             answer before handing it to the resolver and logs it at call time. Returns the
+//	             times on fresh clients, (b) through a RECORDING client that logs every answer
+//	             at call time (the resolver no longer writes to the client's slices since the
+//	             repair of F-C05-1, so the answers are handed on as they are). Returns the
 //	             observables of both, the recorded table, the semver/marker oracle tables the
 //	             model needs, and the universe-level answers the direct oracle needs.
 //	pypi         (root table oracles)  both sides. Go runs the real resolver against a client
@@ -160,13 +161,12 @@ func (rc *recClient) Versions(ctx context.Context, pk resolve.PackageKey) ([]res
 		rc.note(&rc.versions, "V", sx.B(pk.Name), sx.L(sx.Int(0)))
 		return nil, err
 	}
-	cp := append([]resolve.Version(nil), vs...)
 	var items []sx.V
-	for _, v := range cp {
+	for _, v := range vs {
 		items = append(items, vkSx(v.VersionKey))
 	}
 	rc.note(&rc.versions, "V", sx.B(pk.Name), sx.L(sx.Int(1), sx.L(items...)))
-	return cp, nil
+	return vs, nil
 }
 
 func (rc *recClient) Requirements(ctx context.Context, vk resolve.VersionKey) ([]resolve.RequirementVersion, error) {
@@ -175,13 +175,12 @@ func (rc *recClient) Requirements(ctx context.Context, vk resolve.VersionKey) ([
 		rc.note(&rc.requirements, "R", vkSx(vk), sx.L(sx.Int(0)))
 		return nil, err
 	}
-	cp := append([]resolve.RequirementVersion(nil), rs...)
 	var items []sx.V
-	for _, r := range cp {
+	for _, r := range rs {
 		items = append(items, reqSx(r))
 	}
 	rc.note(&rc.requirements, "R", vkSx(vk), sx.L(sx.Int(1), sx.L(items...)))
-	return cp, nil
+	return rs, nil
 }
 
 func (rc *recClient) MatchingVersions(ctx context.Context, vk resolve.VersionKey) ([]resolve.Version, error) {
@@ -190,13 +189,12 @@ func (rc *recClient) MatchingVersions(ctx context.Context, vk resolve.VersionKey
 		rc.note(&rc.matching, "M", vkSx(vk), sx.L(sx.Int(0)))
 		return nil, err
 	}
-	cp := append([]resolve.Version(nil), vs...)
 	var items []sx.V
-	for _, v := range cp {
+	for _, v := range vs {
 		items = append(items, vkSx(v.VersionKey))
 	}
 	rc.note(&rc.matching, "M", vkSx(vk), sx.L(sx.Int(1), sx.L(items...)))
-	return cp, nil
+	return vs, nil
 }
 
 func entriesSx(es []recEntry) sx.V {
@@ -432,7 +430,7 @@ func init() {
 	register("pypi_record", func(a sx.V) sx.V {
 		root := sxVK(a.Nth(0))
 		u := pyUniverse{a.Nth(1)}
-		// (a) raw LocalClient, fresh per run (the resolver permutes the client's slices: F-C05-1)
+		// (a) raw LocalClient, fresh per run
 		var raws []sx.V
 		for i := 0; i < 3; i++ {
 			raws = append(raws, pyResolve(u.client(), root))
